@@ -108,25 +108,89 @@ theorem ipUpTo_bit_lo (n v i k : Nat) (hi : i < n) :
     · have h2 : (i < k + 1) = (i < k) := by apply propext; omega
       simp [h1, hk, h2]
 
-theorem ipUpTo_bit_hi (n v i k : Nat) :
+theorem ipUpTo_bit_hi (n v i k : Nat) (hk : k ≤ n) :
     ipUpTo n v (2 ^ (i + n)) k = (decide (i < k) && v.testBit i) := by
   induction k with
   | zero => simp [ipUpTo]
   | succ k ih =>
-    simp only [ipUpTo, ih, ipTerm, Nat.testBit_two_pow]
-    by_cases hk : i = k
-    · subst hk
-      by_cases hn : n = 0
-      · subst hn; simp
-        cases v.testBit i <;> rfl
-      · have : (i + n = i) = False := by apply propext; constructor <;> intro h <;> omega
-        simp [this]
+    simp only [ipUpTo, ih (by omega), ipTerm, Nat.testBit_two_pow]
+    have h4 : (i + n = k) = False := by apply propext; constructor <;> intro h <;> omega
+    by_cases hik : i = k
+    · subst hik; simp [h4]
     · have h2 : (i < k + 1) = (i < k) := by apply propext; omega
       have h3 : (i + n = k + n) = False := by apply propext; constructor <;> intro h <;> omega
-      by_cases h4 : i + n = k
-      · have : i < k := by omega
-        simp [h2, h3, h4, this]
-        sorry
-      · simp [h2, h3, h4]
+      simp [h2, h3, h4]
+
+theorem ip_bit_lo (n v i : Nat) (hi : i < n) : ip n v (2 ^ i) = v.testBit (i + n) := by
+  unfold ip; rw [ipUpTo_bit_lo n v i n hi]; simp [hi]
+
+theorem ip_bit_hi (n v i : Nat) (hi : i < n) : ip n v (2 ^ (i + n)) = v.testBit i := by
+  unfold ip; rw [ipUpTo_bit_hi n v i n le_rfl]; simp [hi]
+
+/-- product with a vector supported on the pair `(i, i+n)` -/
+theorem ip_pair (n v i : Nat) (a b : Bool) (hi : i < n) :
+    ip n v (bit i a ^^^ bit (i + n) b) = ((v.testBit i && b) ^^ (v.testBit (i + n) && a)) := by
+  rw [ip_xor_right]
+  unfold bit
+  cases a <;> cases b <;> simp [ip_zero_right, ip_bit_lo n v i hi, ip_bit_hi n v i hi]
+
+/-! ### transvections -/
+
+theorem tv_zero (n x : Nat) : tv n x 0 = x := by simp [tv]
+
+theorem tv_involutive (n x h : Nat) : tv n (tv n x h) h = x := by
+  unfold tv
+  by_cases hx : ip n x h
+  · simp only [hx, if_true, ip_xor_left, ip_self, Bool.xor_false]
+    rw [Nat.xor_assoc, Nat.xor_self, Nat.xor_zero]
+  · simp [hx]
+
+theorem ip_tv_left (n x h y : Nat) : ip n (tv n x h) y = (ip n x y ^^ (ip n x h && ip n h y)) := by
+  unfold tv
+  by_cases hx : ip n x h <;> simp [hx, ip_xor_left, ip_zero_left]
+
+theorem ip_tv_tv (n x y h : Nat) : ip n (tv n x h) (tv n y h) = ip n x y := by
+  rw [ip_tv_left, ip_comm n x (tv n y h), ip_comm n h (tv n y h), ip_tv_left, ip_tv_left, ip_self,
+    ip_comm n y x, ip_comm n y h, ip_comm n h x]
+  cases ip n x y <;> cases ip n x h <;> cases ip n h y <;> rfl
+
+theorem tv_xor (n x y h : Nat) : tv n (x ^^^ y) h = tv n x h ^^^ tv n y h := by
+  unfold tv
+  rw [ip_xor_left]
+  apply Nat.eq_of_testBit_eq; intro j
+  cases ip n x h <;> cases ip n y h <;> simp [Nat.testBit_xor]
+  all_goals cases x.testBit j <;> cases y.testBit j <;> cases h.testBit j <;> rfl
+
+theorem tv_zero_left (n h : Nat) : tv n 0 h = 0 := by simp [tv, ip_zero_left]
+
+theorem tv_lt {n x h m : Nat} (hx : x < 2 ^ m) (hh : h < 2 ^ m) : tv n x h < 2 ^ m := by
+  unfold tv; split
+  · exact xor_lt hx hh
+  · simpa using hx
+
+/-- two-step form used by the last three branches of `find_transvection` -/
+theorem tv_two_step {n v0 v1 v2 : Nat} (h01 : ip n v0 v1 = false) (h02 : ip n v0 v2 = true)
+    (h12 : ip n v1 v2 = true) : tv n (tv n v0 (v1 ^^^ v2)) (v0 ^^^ v2) = v1 := by
+  have h10 : ip n v1 v0 = false := by rw [ip_comm]; exact h01
+  have h20 : ip n v2 v0 = true := by rw [ip_comm]; exact h02
+  have e1 : tv n v0 (v1 ^^^ v2) = v0 ^^^ (v1 ^^^ v2) := by simp [tv, ip_xor_right, h01, h02]
+  rw [e1]
+  have e2 : ip n (v0 ^^^ (v1 ^^^ v2)) (v0 ^^^ v2) = true := by
+    simp [ip_xor_left, ip_xor_right, ip_self, h01, h02, h12, h10, h20]
+  simp only [tv, e2, if_true]
+  apply Nat.eq_of_testBit_eq; intro j
+  simp only [Nat.testBit_xor]
+  cases v0.testBit j <;> cases v1.testBit j <;> cases v2.testBit j <;> rfl
+
+/-- the same two transvections in the other order (the order used by `from_int_tuple`) -/
+theorem tv_two_step_rev {n v0 v1 v2 : Nat} (h02 : ip n v0 v2 = true)
+    (h12 : ip n v1 v2 = true) : tv n (tv n v0 (v0 ^^^ v2)) (v1 ^^^ v2) = v1 := by
+  have h21 : ip n v2 v1 = true := by rw [ip_comm]; exact h12
+  have e1 : tv n v0 (v0 ^^^ v2) = v2 := by
+    simp only [tv, ip_xor_right, ip_self, h02, Bool.false_xor, if_true]
+    rw [← Nat.xor_assoc, Nat.xor_self, Nat.zero_xor]
+  rw [e1]
+  simp only [tv, ip_xor_right, ip_self, h21, Bool.xor_false, if_true]
+  rw [Nat.xor_comm v1 v2, ← Nat.xor_assoc, Nat.xor_self, Nat.zero_xor]
 
 end Numqi.SpF2
